@@ -119,8 +119,8 @@ Print Assumptions c25_model_matches_source_polls.
 
 Example c25_nonvacuous :
   let sc := [EvElim EMore; EvElim EDone; EvInit None; EvRest Cont; EvRest (Ret LUndef); EvInit None; EvRest (Ret LFalse)] in
-  run_script true 100 nostop sc = (Some LFalse, 10) /\
+  run_script true 100 nostop sc = (Some LFalse, 9) /\
   run_script true 100 (stop_at_poll 5) sc = (Some LUndef, 7) /\
-  run_script true 100 (stop_at_step 17) sc = (Some LUndef, 10) /\
-  run_script true 100 (stop_at_poll 10) sc = (Some LFalse, 10).
+  run_script true 100 (stop_at_step 17) sc = (Some LUndef, 9) /\
+  run_script true 100 (stop_at_poll 9) sc = (Some LFalse, 9).
 Proof. vm_compute. repeat split. Qed.
